@@ -40,7 +40,7 @@ struct Problem
 {
     int variant = 0, mode = 0, n = 0, nev = 0, ncv = 0;
     const char* vname = "";
-    bool clean = true;
+    bool clean = true, tight = false;
     std::string tag;
     double condB = 1, scale = 1;
     MatXd A, B;              // the pencil handed to the solver: A x = lambda B x  (buckling: A = K positive definite, B = K_G indefinite)
@@ -175,6 +175,7 @@ static void run_history(vf::Ctx& ctx, const Problem& P, Solver& es, vw::OpCtl& c
         else
         {
             ComputeArgs a{r.pick(SYM_SELECT), r.pick(maxits), tols[(size_t) r.range(P.clean ? 2 : 0, (long) tols.size() - 1)], r.pick(SYM_SORT)};
+            if (P.tight) { a.maxit = 1000; a.tol = r.pick(std::vector<T>{T(1e-11), T(1e-12), T(1e-13), T(1e-14)}); }
             const long it0 = (long) es.num_iterations();
             ctl.limit = ctl.count + 8 * (4 + 2 * (long) P.ncv * (a.maxit + 2));
             long ret = -1;
@@ -226,7 +227,8 @@ static const int VMODE[NVAR] = {2, 2, 2, 3, 3, 4, 4, 4};
 static const char* VSHORT(int v) { static char b[16]; snprintf(b, sizeof b, "g%dv%d", C03_GROUP, v); return b; }
 
 static long n_explore(const vf::Ctx& ctx) { return ctx.thorough ? 24000 : 900; }
-static long n_corpus() { return sizeof(T) == 8 ? 120 : 0; }
+static long n_corpus1() { return sizeof(T) == 8 ? 120 : 0; }
+static long n_corpus() { return sizeof(T) == 8 ? 120 + 112 : 0; }   // second part (ids from 120): corpus/scaled/... (see c01_sym.cpp)
 long vf_ncases(const vf::Ctx& ctx) { return n_explore(ctx) + n_corpus(); }
 
 void vf_run_case(vf::Ctx& ctx, long idx)
@@ -241,17 +243,20 @@ void vf_run_case(vf::Ctx& ctx, long idx)
     if (corpus)
     {
         ctx.case_rng("c03_corpus", ci, true);
-        P.tag = std::string("corpus/") + VSHORT(P.variant) + "/" + std::to_string(ci);
+        P.tight = ci >= n_corpus1();
+        P.tag = std::string(P.tight ? "corpus/scaled/" : "corpus/") + VSHORT(P.variant) + "/" + std::to_string(ci);
         ctx.set_tag(P.tag);
     }
     P.clean = !corpus;
-    vg::Config c = vg::sym_config(r, corpus ? 2 : 5, ctx.thorough && !corpus ? 100 : 40);
+    vg::Config c = vg::sym_config(r, corpus && !P.tight ? 2 : 5, ctx.thorough && !corpus ? 100 : 40);
+    const bool wb = P.clean || P.tight;   // well-behaved classes, conditions and shifts
     P.n = c.n; P.nev = c.nev; P.ncv = c.ncv;
     const int n = P.n;
     // SPD matrix with prescribed condition number; the CG-based mode stays at cond <= 1e2 (1e4 in the corpus)
     static const double CONDS_CLEAN[] = {1, 1e1, 1e2, 1e3, 1e4}, CONDS_ALL[] = {1, 1e2, 1e4, 1e6, 1e8};
-    P.condB = P.clean ? CONDS_CLEAN[r.range(0, P.mode == 1 ? 2 : 4)] : CONDS_ALL[r.range(0, P.mode == 1 ? 2 : 4)];
+    P.condB = wb ? CONDS_CLEAN[r.range(0, P.mode == 1 ? 2 : 4)] : CONDS_ALL[r.range(0, P.mode == 1 ? 2 : 4)];
     P.scale = P.clean ? (r.coin(0.6) ? 1.0 : std::pow(10.0, (double) r.range(-2, 2))) : std::pow(10.0, (double) r.range(-6, 6));
+    if (P.tight) P.scale = std::pow(10.0, (double) (r.coin(0.7) ? -r.range(3, 12) : r.range(3, 8)));
     MatXd spd;
     {
         MatXd Q = vg::rand_orth(r, n);
@@ -261,7 +266,7 @@ void vf_run_case(vf::Ctx& ctx, long idx)
         for (int j = 0; j < n; j++) for (int i = 0; i < j; i++) spd(i, j) = spd(j, i);
     }
     static const int CLEANCLS[] = {0, 6, 7, 10, 11};
-    const int cls = P.clean ? CLEANCLS[r.range(0, 4)] : (int) r.range(0, vg::N_SYM_CLASS - 1);
+    const int cls = wb ? CLEANCLS[r.range(0, 4)] : (int) r.range(0, vg::N_SYM_CLASS - 1);
     MatXd sym = vg::sym_matrix(r, n, cls, P.scale);
     if (P.mode == 3) { P.A = spd; P.B = sym; }   // buckling: K positive definite, K_G indefinite
     else { P.A = sym; P.B = spd; }
@@ -296,7 +301,7 @@ void vf_run_case(vf::Ctx& ctx, long idx)
     {
         const double spread = std::max(P.spec[n - 1] - P.spec[0], 1e-300);
         const int j = (int) r.range(0, n - 1);
-        const double rel = P.clean ? (r.coin() ? 0.1 : 0.03) : std::pow(10.0, -(double) r.range(1, 5));
+        const double rel = wb ? (r.coin() ? 0.1 : 0.03) : std::pow(10.0, -(double) r.range(1, 5));
         double s = P.spec[j] + (r.coin() ? 1 : -1) * rel * spread;
         if (std::abs(s) < 1e-3 * spread) s = 0.05 * spread;
         P.sigma = T(s);
